@@ -127,6 +127,7 @@ func (r *c05Run) seal() {
 	if err != nil {
 		r.fail("no interchain meta for block %d: %v", h, err)
 	}
+	checkRouterDelivery(r.w.N, h, meta, r.fail)
 	ops := r.cur
 	r.cur = nil
 	var d []string
